@@ -151,6 +151,11 @@ impl LockfreeArena {
             if memory_usage + next_capacity > max_memory_usage {
                 let remaining_memory = max_memory_usage.saturating_sub(memory_usage);
 
+                // The bucket we can still afford must be able to hold the whole string
+                if slice.len() > remaining_memory {
+                    return Err(LassoError::new(LassoErrorKind::MemoryLimitReached));
+                }
+
                 // Check that we haven't exhausted our memory limit
                 self.allocate_memory(remaining_memory)?;
 
